@@ -237,6 +237,67 @@ pub fn gen(tier: Tier) -> Vec<E> {
             }
         }
     }
+    // depth 2: every operator over computed (non-leaf) operands, one per result kind / error class
+    {
+        let pr = E::Var(Var::Principal);
+        let comp: Vec<E> = vec![
+            E::bin(BinOp::Add, E::Long(1), E::Long(1)),
+            E::bin(BinOp::Mul, E::Long(i64::MAX), E::Long(2)),
+            E::Neg(b(E::Long(i64::MIN))),
+            E::bin(BinOp::Contains, E::Set(vec![E::Long(1)]), E::Long(1)),
+            E::bin(BinOp::In, E::Ent(ua()), E::Ent(gh())),
+            E::not(E::Bool(true)),
+            E::Like(b(E::str("a")), vec![Pat::Star]),
+            E::attr(pr.clone(), "nick"),
+            E::attr(E::attr(pr.clone(), "mgr"), "age"),
+            E::attr(E::Var(Var::Resource), "meta"),
+            E::attr(E::Rec(vec![("a".into(), E::Set(vec![E::Long(1), E::Long(2)]))]), "a"),
+            E::ite(E::has(E::Var(Var::Context), "n"), E::Ent(ua()), E::str("a")),
+            E::ite(E::Bool(false), E::Long(1), E::Set(vec![E::Ent(ua()), E::Ent(gg())])),
+            E::bin(BinOp::GetTag, pr.clone(), E::str("t1")),
+            E::ext("offset", vec![E::ext("datetime", vec![E::str("2024-01-01")]), E::ext("duration", vec![E::str("1d")])]),
+            E::ext("toDate", vec![E::ext("datetime", vec![E::str("1969-12-31T23:59:59Z")])]),
+            E::ext("durationSince", vec![E::ext("datetime", vec![E::str("2024-01-02")]), E::ext("datetime", vec![E::str("2024-01-01")])]),
+            E::ext("lessThan", vec![E::ext("decimal", vec![E::str("1.0")]), E::ext("decimal", vec![E::str("2.0")])]),
+            E::ext("isInRange", vec![E::ext("ip", vec![E::str("10.0.0.1")]), E::ext("ip", vec![E::str("10.0.0.0/8")])]),
+            E::Set(vec![E::attr(pr.clone(), "age"), E::bin(BinOp::Add, E::Long(1), E::Long(2))]),
+            E::Rec(vec![("a".into(), E::attr(pr.clone(), "age")), ("b".into(), E::Set(vec![]))]),
+            E::attr(E::Ent(uz()), "age"),
+            E::bin(BinOp::Lt, E::str("a"), E::Long(1)),
+        ];
+        for cx in &comp {
+            out.push(cx.clone());
+            out.push(E::not(cx.clone()));
+            out.push(E::Neg(b(cx.clone())));
+            out.push(E::IsEmpty(b(cx.clone())));
+            out.push(E::Like(b(cx.clone()), vec![Pat::Char('a'), Pat::Star]));
+            for a in ["a", "age", "pub", "nick"] {
+                out.push(E::attr(cx.clone(), a));
+                out.push(E::has(cx.clone(), a));
+            }
+            out.push(E::Is(b(cx.clone()), "User".into()));
+            out.push(E::IsIn(b(cx.clone()), "User".into(), b(E::Ent(gh()))));
+            for (name, arity) in refsem::ext::EXT_FUNCS {
+                if *arity == 1 {
+                    out.push(E::ext(name, vec![cx.clone()]));
+                }
+            }
+            for y in &k {
+                for op in BINOPS {
+                    out.push(E::bin(op, cx.clone(), y.clone()));
+                    out.push(E::bin(op, y.clone(), cx.clone()));
+                }
+                out.push(E::and(cx.clone(), y.clone()));
+                out.push(E::or(y.clone(), cx.clone()));
+                out.push(E::ite(cx.clone(), y.clone(), cx.clone()));
+            }
+            for cy in &comp {
+                for op in BINOPS {
+                    out.push(E::bin(op, cx.clone(), cy.clone()));
+                }
+            }
+        }
+    }
     // depth-2 short-circuit / ordering cores
     let mut core: Vec<E> = vec![E::Bool(true), E::Bool(false), E::Long(1), E::has(E::Var(Var::Context), "n"), E::has(E::Var(Var::Principal), "nick")];
     core.extend(error_leaves());
